@@ -637,6 +637,8 @@ def run(ck):
     ck.run_rule("C07.R1", "error latch: error/critical set the flag, critical aborts, warning does neither", 3, rule_R1)
     from ..rules import deliver
     ck.run_rule("R.deliver", "an emitted error reaches the handler at once and latches, also inside speculative evaluation", 6, deliver.rule_deliver)
+    from . import c18 as _c18
+    ck.run_rule("G5.bal", "scope objects (try mode, cycle detection, report scopes) restore their state on every exit: a try mode left open turns a later real error into a failure without any diagnostic", 18, _c18.rule_balance)
     ck.run_rule("C07.R2", "conversion at scope exit over the complete valuation; latch writer/reader agreement", 16, rule_R2)
     ck.run_rule("C07.R3", "who may write files, and when", 3, rule_R3)
     ck.run_rule("C07.R4", "every failure handler of main_cli ends in a failing exit", 6, rule_R4)
